@@ -5,9 +5,13 @@
                              BackendVSA.If -- after ITE excavation as in BackendVSA.convert -- contains the expression's value.
    C24_table                 the executable instance that the correspondence check runs: operator results and joins are looked up
                              in a recorded table; if every recorded entry is sound, the replayed result is sound.
-   The soundness of the individual interval transfer functions is C21's subject and a hypothesis here. *)
+   C24_add_entry / C24_sub_entry   the table hypothesis is dischargeable: an entry whose result is what the strided-interval model
+                             computes for + (for -, with an aligned subtrahend) is sound, by C21's theorems.
+   The soundness of the other interval transfer functions is C21's subject and a hypothesis here. *)
 Require Import CV.Spec.BV CV.Model.PyPrelude CV.Model.Ast CV.Model.Build CV.Model.Rewrite CV.Model.AbsInt
-               CV.Proofs.AstLemmas CV.Proofs.BuildSound CV.Proofs.SimpSound CV.Proofs.AbsIntSound CV.Proofs.AbsIntTable.
+               CV.Proofs.AstLemmas CV.Proofs.BuildSound CV.Proofs.SimpSound CV.Proofs.AbsIntSound CV.Proofs.AbsIntTable
+               CV.Model.SI CV.Proofs.SISound CV.Proofs.AbsIntSI.
+Import ListNotations.
 From Coq Require Import ZArith List.
 Open Scope Z_scope.
 
@@ -43,3 +47,13 @@ Theorem C24_table : forall fuel ann tab joins rho e a v,
   vsa_convert (mk fuel) ann tab joins e = Ok a -> eval rho e = Some v -> gamma_t a v.
 Proof. intros fuel. exact (table_convert_sound (mk fuel) (mk_sound fuel)). Qed.
 Print Assumptions C24_table.
+
+Theorem C24_add_entry : forall a b r, wf a -> wf b -> bits a = bits b -> si_add a b = Ok r ->
+  entry_ok (OAdd, [], [asi a; asi b], asi r).
+Proof. exact add_entry_ok. Qed.
+Print Assumptions C24_add_entry.
+
+Theorem C24_sub_entry : forall a b r, wf a -> wf b -> bits a = bits b -> aligned b -> si_sub a b = Ok r ->
+  entry_ok (OSub, [], [asi a; asi b], asi r).
+Proof. exact sub_entry_ok. Qed.
+Print Assumptions C24_sub_entry.
